@@ -119,7 +119,7 @@ PROPS = {
     },
     "C08": {
         "mc": ["dec_framing", "dec_ctllen", "dec_data", "dec_loop3", "dec_loop4", "session_q", "session_t"],
-        "gen": ["decode_seq", "suffix", "concat", "decode", "decode_big"],
+        "gen": ["decode_seq", "suffix", "concat", "decode", "decode_big", "ignored"],
         "rule": "remaining length after every accepted decode; 1..4 messages back to back in one reader; (b, b++suffix) "
                 "pairs; AVP record concatenations against the records alone; TLC: SuffixIndependent on every accepted run, "
                 "BackToBack / AtBoundary on the session machine",
@@ -169,7 +169,7 @@ PROPS = {
         "exhaustive_thorough": True,
     },
     "C15": {
-        "mc": ["dec_loop3", "dec_loop4", "dec_avprec", "dec_ctllen"], "gen": ["decode", "avps", "ctl_records"],
+        "mc": ["dec_loop3", "dec_loop4", "dec_avprec", "dec_ctllen"], "gen": ["ctl_records"],
         "rule": "all sequences of up to 3 (thorough: 4) records from 8 classes (valid Message Type, other valid, "
                 "undecodable, unknown type, vendor, hidden, length < 6, overrun) explored by TLC and replayed; random "
                 "assemblies of up to 12 good / bad records; error count and order, all-or-nothing",
@@ -216,6 +216,24 @@ def _wrap_control(records):
     return [0x13, 0x20, (n >> 8) & 255, n & 255, 0, 1, 0, 2, 0, 3, 0, 4] + body
 
 
+def _split_records(msg):
+    """records of a control message whose Length is exact (generator-side parsing, not an oracle):
+    walk the AVP length fields; an unusable length makes the rest one last record"""
+    if len(msg) < 12 or not (msg[0] & 1) or (msg[2] << 8 | msg[3]) != len(msg):
+        return None
+    body, recs, i = msg[12:], [], 0
+    while i < len(body):
+        if len(body) - i < 6:
+            return None                       # trailing junk: not a sequence of records
+        n = (body[i] >> 6) << 8 | body[i + 1]
+        if n < 6 or i + n > len(body):
+            recs.append(body[i:])
+            return recs
+        recs.append(body[i:i + n])
+        i += n
+    return recs
+
+
 def _host_of(n):
     return [(i * 7) % 256 for i in range(1, n + 1)]
 
@@ -236,6 +254,10 @@ def catalog_cases(prop, model, replay):
             mode = r.get("mode")
             if mode == "msg":
                 add({"op": "decode", "in": r["in"], "opts": r["opts"], "entry": "validate", "rdr": rdr})
+                if prop == "C15":
+                    recs = _split_records(r["in"])
+                    if recs is not None:
+                        add({"op": "ctl_records", "in": r["in"], "recs": recs})
                 if prop == "C10" and r.get("res") == "ok":
                     add({"op": "chain", "in": r["in"], "opts": r["opts"]})
                 if prop == "C08" and r.get("res") == "ok":
@@ -279,24 +301,29 @@ def _is_control_input(ev):
 
 
 def owns(prop, ev, tag):
-    """does failure `tag` on event `ev` contradict property `prop`?"""
+    """does failure `tag` on event `ev` contradict property `prop`?
+
+    Each property owns only the tags that follow from ITS statement, so that a check never raises an alarm
+    on code where its property holds (a value that is wrong but consistently so is C05's / C06's business,
+    not C03's, C08's, C10's, C14's or C19's)."""
     e = ev.get("e")
+    died = tag in DIED
     if tag == "io":
         return prop == "C19"
     if prop == "C19":
         # the same call gave different results on different threads / after different histories
         return tag == "nondeterministic"
     if prop == "C01":
-        return e in DECODE_EVENTS and (tag in DIED or tag == "empty-errors")
+        return e in DECODE_EVENTS + ("ctl_records",) and (died or tag == "empty-errors")
     if prop == "C02":
         return e in DECODE_EVENTS and tag in ("reader-contract", "reader-diff")
     if prop == "C05":
         return e in ("decode", "decode_avps", "decode_payload", "decode_opts") and "fault" not in ev \
-            and (tag in DIED or tag in ("verdict", "value"))
-    if prop == "C03":
-        return e == "roundtrip" and not (ev.get("kind") == "msg" and ev.get("v", {}).get("k") == "Data")
-    if prop == "C04":
-        return e == "roundtrip" and ev.get("kind") == "msg" and ev.get("v", {}).get("k") == "Data"
+            and (died or tag in ("verdict", "value"))
+    if prop in ("C03", "C04"):
+        # the round-trip relation on the implementation's own values
+        is_data = ev.get("kind") == "msg" and ev.get("v", {}).get("k") == "Data"
+        return e == "roundtrip" and is_data == (prop == "C04") and (died or tag in ("roundtrip", "native-eq"))
     if prop == "C06":
         if e == "bitmask":
             return tag in ("bitmask-layout", "bitmask-reencode")
@@ -305,21 +332,18 @@ def owns(prop, ev, tag):
         return e in ("encode", "encode_seq", "roundtrip", "hide") and tag in (
             "length-field", "get-length", "get-length-spec", "unexpected-panic", "oversize-accepted")
     if prop == "C08":
-        if e in ("decode_seq", "decode_suffix", "avps_concat"):
-            return True
-        return e in ("decode", "decode_avps", "roundtrip") and tag == "rem"
+        # consumed extent and independence of what follows; wrong values as such are C05's business
+        return e in ("decode_seq", "decode_suffix", "avps_concat", "decode", "decode_avps", "roundtrip") and tag in (
+            "rem", "seq-start", "suffix-dependence", "concat-mismatch")
     if prop == "C09":
-        if e == "encode_seq":
-            return True
-        # with a non-empty writer, wrong octets or a refusal of a value that fits contradict
-        # enc_into(p, v) = p ++ encode(v)
-        return e == "encode" and tag in ("prefix-changed", "patch-outside", "octets", "unexpected-panic") and (
-            tag in ("prefix-changed", "patch-outside") or bool(ev.get("prefix")))
+        # judged against the implementation's own encoding into an empty writer
+        return e in ("encode", "encode_seq") and tag in ("prefix-changed", "patch-outside", "position-dependent")
     if prop == "C10":
-        return e == "chain"
+        return e == "chain" and tag in ("not-stable-reject", "not-stable-value", "not-stable-length", "not-stable-octets",
+                                        "not-stable-panic", "chain-incomplete", "native-eq")
     if prop == "C11":
         if e == "hide_reveal":
-            return tag in ("reveal-direct", "reveal-wire", "native-eq", "hide-of-hidden") or tag in DIED
+            return died or tag in ("reveal-direct", "reveal-wire", "native-eq", "hide-of-hidden")
         return e == "reveal" and ev.get("v", {}).get("k") != "Hidden"
     if prop == "C12":
         if e == "hide":
@@ -328,17 +352,13 @@ def owns(prop, ev, tag):
             return tag in ("hide-value", "hide-wire")
         return e == "reveal" and tag == "reveal-value"
     if prop == "C13":
-        return e == "reveal" and ev.get("v", {}).get("k") == "Hidden"
+        return e == "reveal" and ev.get("v", {}).get("k") == "Hidden" and (died or tag in ("reveal-kind", "reveal-accepts-bad"))
     if prop == "C14":
-        # only what C14 states: relations between the results under different option sets, judged on the
-        # implementation's own results (a value that is wrong under every option set is C05's business)
-        return e == "decode_opts" and (tag in ("opts-monotone", "default-entry", "version-exact", "reserved-exact", "unused-exact")
-                                       or tag in DIED)
+        # relations between the results under different option sets, on the implementation's own results
+        return e == "decode_opts" and (died or tag in ("opts-monotone", "default-entry", "version-exact", "reserved-exact", "unused-exact"))
     if prop == "C15":
-        if e == "decode_avps":
-            return tag in ("value",) or tag in DIED
-        return e == "decode" and "fault" not in ev and _is_control_input(ev) and tag in (
-            "error-count", "empty-errors", "verdict", "value")
+        # the acceptance rule applied to the implementation's own per-record results
+        return e == "ctl_records" and (died or tag in ("all-or-nothing", "error-count", "error-order", "empty-errors"))
     if prop == "C16":
         return e in ("enum_map", "enum_names")
     if prop == "C17":
